@@ -120,7 +120,24 @@ func (r *Run) binop(op token.Token, t types.Type, x, y Value) Value {
 		case token.SUB:
 			return tBVBin("bvsub", x, yt)
 		case token.MUL:
-			return tBVBin("bvmul", x, yt)
+			prod := tBVBin("bvmul", x, yt)
+			// whole-unit durations: q*C with a bounded non-negative component q and a constant C that
+			// cannot overflow is remembered so that (q*C)/C and (q*C)%C are answered structurally
+			if w == 64 && !prod.Const {
+				q, cst := x, yt
+				if q.Const {
+					q, cst = yt, x
+				}
+				if b, ok := r.krBound[q]; ok && cst.Const && cst.Signed() > 0 && b <= (1<<62)/cst.Signed() {
+					info := krInfo{div: map[int64]*Term{cst.Signed(): q}, rem: map[int64]*Term{cst.Signed(): mkBV(64, 0)}}
+					if cst.Signed() == 1000000000 {
+						info.div[1000000] = tBVBin("bvmul", q, mkBV(64, 1000))
+						info.rem[1000000] = mkBV(64, 0)
+					}
+					r.kr[prod] = info
+				}
+			}
+			return prod
 		case token.QUO, token.REM:
 			if info, ok := r.kr[x]; ok && yt.Const {
 				if op == token.QUO {
@@ -540,6 +557,15 @@ func (r *Run) conv(tDst, tSrc types.Type, x Value) Value {
 			t := x.(*Term)
 			_ = w
 			if wd, _, ok := isInt(ud); ok {
+				// widening back a truncated bounded component (uint32(d/unit) -> time.Duration): if the
+				// component is known to fit, the result is the component itself
+				if !signed && wd > t.S.W && !t.Const && len(t.Args) == 1 && t.Op == fmt.Sprintf("(_ extract %d 0)", t.S.W-1) {
+					if inner := t.Args[0]; inner.S.W == wd {
+						if b, ok := r.krBound[inner]; ok && (t.S.W >= 63 || b < int64(1)<<uint(t.S.W)) {
+							return inner
+						}
+					}
+				}
 				return tBVResize(t, wd, signed)
 			}
 			if isFloat(ud) {
@@ -570,6 +596,13 @@ func (r *Run) conv(tDst, tSrc types.Type, x Value) Value {
 					return x
 				}
 				if wd, _, ok := isInt(ud); ok {
+					// float64(q) for a bounded integer component q (below 2^53) is exact, so converting
+					// it back yields q
+					if xt.Op == "(_ to_fp 11 53) RNE" && len(xt.Args) == 1 && xt.Args[0].S.W == 64 {
+						if b, ok := r.krBound[xt.Args[0]]; ok && b < 1<<53 {
+							return tBVResize(xt.Args[0], wd, true)
+						}
+					}
 					return tFPToInt(xt, wd)
 				}
 			}
